@@ -507,20 +507,20 @@ theorem lookups_compact (dv : SDevInfo → List (Str × DevVal)) (sod : SOD) (hd
 
 /-- **Compact arrays.**  `CompactSubObj` without a name list: sub-index 0 is the UNSIGNED8 "Number
     of entries", sub-index 1 the described entry, and *every* further sub-index `1 < k < 256` yields
-    a variable of the template's data type, access type, limits and default value, named
+    a variable of the template's data type, access type, PDO-mappability, limits and default value, named
     `<ParameterName>_<k in hex>` (the count in the file is not used as a bound). -/
 theorem compact_expanded (nid : Option Int) (i : Nat) (t : SVar) (k : Nat) (hk1 : 1 < k) (hk : k < 256) :
     let c := compactBase nid i t
     let tv := denoteVar t nid i 1
     c.getItem (.idx 0) = some (numberOfEntriesVar i) ∧ c.getItem (.idx 1) = some tv ∧
     ∃ v, c.getItem (.idx k) = some v ∧ v.index = i ∧ v.subindex = k ∧ v.dataType = tv.dataType ∧
-      v.accessType = tv.accessType ∧ v.min = tv.min ∧ v.max = tv.max ∧ v.default = tv.default ∧
-      v.name = t.name ++ '_' :: natStr 16 false k := by
+      v.accessType = tv.accessType ∧ v.pdoMappable = tv.pdoMappable ∧ v.min = tv.min ∧ v.max = tv.max ∧
+      v.default = tv.default ∧ v.name = t.name ++ '_' :: natStr 16 false k := by
   intro c tv
   have hsubs : c.subs = [(0, numberOfEntriesVar i), (1, tv)] := by
     simp [c, tv, compactBase, Coll.addMember, numberOfEntriesVar, denoteVar, dictSet]
   refine ⟨by simp [Coll.getItem, hsubs, dictGet], by simp [Coll.getItem, hsubs, dictGet], ?_⟩
-  refine ⟨arrayTemplateVar c tv k, ?_, rfl, rfl, rfl, rfl, rfl, rfl, rfl, rfl⟩
+  refine ⟨arrayTemplateVar c tv k, ?_, rfl, rfl, rfl, rfl, rfl, rfl, rfl, rfl, rfl⟩
   have h0 : ¬ (0 = k) := by omega
   have h1 : ¬ (1 = k) := by omega
   have hia : c.isArray = true := rfl
@@ -654,8 +654,8 @@ example :
 
 /-- what every entry of an array described in compact form shares with the template -/
 def LikeTemplate (tv v : Var) : Prop :=
-  v.index = tv.index ∧ v.dataType = tv.dataType ∧ v.accessType = tv.accessType ∧ v.min = tv.min ∧
-  v.max = tv.max ∧ v.default = tv.default
+  v.index = tv.index ∧ v.dataType = tv.dataType ∧ v.accessType = tv.accessType ∧
+  v.pdoMappable = tv.pdoMappable ∧ v.min = tv.min ∧ v.max = tv.max ∧ v.default = tv.default
 
 /-- invariant of the sub-index table of an array assembled from a compact description -/
 def CompactInv (tv : Var) (d : List (Nat × Var)) : Prop :=
@@ -696,7 +696,7 @@ theorem namedCopies_like (tv : Var) : ∀ (ns : List Str) (k : Nat),
   | cons n r ih =>
     simp only [namedCopies, List.mem_cons] at hv
     rcases hv with rfl | hv
-    · exact ⟨rfl, rfl, rfl, rfl, rfl, rfl⟩
+    · exact ⟨rfl, rfl, rfl, rfl, rfl, rfl, rfl⟩
     · exact ih (k + 1) hv
 
 theorem foldl_addMember_isArray (vs : List Var) : ∀ c : Coll, (vs.foldl Coll.addMember c).isArray = c.isArray := by
@@ -708,7 +708,7 @@ theorem foldl_addMember_isArray (vs : List Var) : ∀ c : Coll, (vs.foldl Coll.a
     with no name list, or a name list for the first entries or for all of them — every sub-index
     `1 ≤ k ≤ 254` (so every `k ≤ n`, whatever `n ≤ 254` the file announces, the last one `n = 254`
     included) of the imported array is a variable with that sub-index and the template's index, data
-    type, access type, limits and default value; sub-index 0 is the entry count. -/
+    type, access type, PDO-mappability, limits and default value; sub-index 0 is the entry count. -/
 theorem compact_members_complete (nid : Option Int) (i : Nat) (up : Bool) (n : Nat) (nSp : NumSp) (t : SVar)
     (otSp : NumSp) (names : Option (List Str)) (k : Nat) (hk1 : 1 ≤ k) (hk : k ≤ 254) :
     ∀ c, buildObj nid (.compact i up n nSp t otSp names) = .coll c →
@@ -731,12 +731,12 @@ theorem compact_members_complete (nid : Option Int) (i : Nat) (up : Bool) (n : N
     have hsubs : (compactBase nid i t).subs = [(0, numberOfEntriesVar i), (1, denoteVar t nid i 1)] := by
       simp [compactBase, Coll.addMember, numberOfEntriesVar, denoteVar, dictSet]
     rw [hsubs]
-    refine ⟨fun k v hv => ?_, denoteVar t nid i 1, by simp [dictGet], ⟨rfl, rfl, rfl, rfl, rfl, rfl⟩⟩
+    refine ⟨fun k v hv => ?_, denoteVar t nid i 1, by simp [dictGet], ⟨rfl, rfl, rfl, rfl, rfl, rfl, rfl⟩⟩
     simp only [dictGet] at hv
     split at hv
     · rename_i h0; cases hv; exact ⟨by rw [← h0]; rfl, Or.inl h0.symm⟩
     · split at hv
-      · rename_i h1; cases hv; exact ⟨by rw [← h1]; rfl, Or.inr ⟨rfl, rfl, rfl, rfl, rfl, rfl⟩⟩
+      · rename_i h1; cases hv; exact ⟨by rw [← h1]; rfl, Or.inr ⟨rfl, rfl, rfl, rfl, rfl, rfl, rfl⟩⟩
       · exact absurd hv (by simp)
   have hinv := compactInv_foldl _ vs _ hbase hvs
   rw [← subs_foldl_addMember] at hinv
@@ -756,9 +756,9 @@ theorem compact_members_complete (nid : Option Int) (i : Nat) (up : Bool) (n : N
     refine ⟨arrayTemplateVar (vs.foldl Coll.addMember (compactBase nid i t)) v1 k, ?_, rfl, ?_⟩
     · have : 0 < k ∧ k < 256 := ⟨by omega, by omega⟩
       simp [Coll.getItem, hg, hv1, harr, this]
-    · obtain ⟨a1, a2, a3, a4, a5, a6⟩ := hl1
+    · obtain ⟨a1, a2, a3, a4, a5, a6, a7⟩ := hl1
       exact ⟨by show (vs.foldl Coll.addMember (compactBase nid i t)).index = _; rw [hidx]; rfl,
-             a2, a3, a4, a5, a6⟩
+             a2, a3, a4, a5, a6, a7⟩
 
 /-- … and end to end: importing the written file, looking the array up by its index and asking it for any
     of the `n ≤ 254` entries it announces (the last one included) gives such a variable. -/
@@ -778,13 +778,23 @@ theorem compact_imported_complete (sod : SOD) (hwf : sod.WF) (hd : Distinct sod)
   exact ⟨build sod arg, c, v, import_write sod hwf arg, hl', hv, hs, hl⟩
 
 /-- the largest array: 254 entries, the first three with names of their own: entry 3 is the named copy,
-    entries 4 and 254 are made from the template, 255 is beyond what the description announces -/
+    entries 4 and 254 are made from the template (PDO-mappable like it), 255 is beyond what the description announces -/
 example :
-    (match buildObj (some 5) (.compact 0x2100 true 254 {} { exSpeed with name := c!"Arr" } {} (some [c!"x", c!"y", c!"z"])) with
-     | .coll c => [3, 4, 253, 254].map fun k => (c.getItem (.idx k)).map fun v => (v.name, v.subindex, v.dataType, v.min)
+    (match buildObj (some 5) (.compact 0x2100 true 254 {} { exSpeed with name := c!"Arr", pdo := some (1, {}) } {}
+              (some [c!"x", c!"y", c!"z"])) with
+     | .coll c => [3, 4, 253, 254].map fun k => (c.getItem (.idx k)).map fun v =>
+         (v.name, v.subindex, v.dataType, v.min)
      | .var _ => []) =
       [some (c!"z", 3, 0x10, some (-8388608)), some (c!"x_4", 4, 0x10, some (-8388608)),
        some (c!"x_fd", 253, 0x10, some (-8388608)), some (c!"x_fe", 254, 0x10, some (-8388608))] := by
+  decide +kernel
+
+example :
+    (match buildObj (some 5) (.compact 0x2100 true 254 {} { exSpeed with name := c!"Arr", pdo := some (1, {}) } {}
+              (some [c!"x", c!"y", c!"z"])) with
+     | .coll c => [0, 1, 3, 4, 254].map fun k => (c.getItem (.idx k)).map fun v => (v.subindex, v.pdoMappable)
+     | .var _ => []) =
+      [some (0, false), some (1, true), some (3, true), some (4, true), some (254, true)] := by
   decide +kernel
 
 /-! ## T import_history -/
@@ -843,7 +853,7 @@ theorem tables_as_modelled :
     DUMMY_LO = 1 ∧ DUMMY_HI = 8 ∧ CUSTOM_TYPE_ABOVE = 0x1B ∧
     ARRAY_TEMPLATE_ATTRS = [c!"data_type", c!"unit", c!"factor", c!"min", c!"max", c!"default",
       c!"access_type", c!"description", c!"value_descriptions", c!"bit_definitions",
-      c!"storage_location"] ∧
+      c!"storage_location", c!"pdo_mappable"] ∧
     DEVINFO_IMPORT.map (fun r => (r.2.1, r.1)) =
       [(c!"VendorName", 0), (c!"VendorNumber", 1), (c!"ProductName", 0), (c!"ProductNumber", 1),
        (c!"RevisionNumber", 1), (c!"OrderCode", 0), (c!"SimpleBootUpMaster", 2),
